@@ -33,6 +33,7 @@ class FlagvalOr(FunctionContract):
     level = "C"
     int_mode = "bv"
     force_symbolic = True
+    scalar_ctors = True
     bound = "a group of 1..4 labels, every ordered selection of distinct labels (any case), group or alias name"
     assumptions = ["bits are arbitrary distinct values in 0..63 (symbolic, 64-bit vectors); the label table is a Python dict with concrete keys"]
 
